@@ -99,11 +99,16 @@ def splitDotAux : Str → Str → List Str
 def splitDot (s : Str) : List Str := splitDotAux s []
 
 def digitVal (c : Byte) : Option Nat := if 0x30 ≤ c.toNat ∧ c.toNat ≤ 0x39 then some (c.toNat - 0x30) else none
-/-- `strconv.Atoi` restricted to what can be an array index: a non-empty run of digits, optional `+`.
-(negative numbers parse in Go but never equal an index; they are `none` here as well as in the result) -/
-def atoiIdx (s : Str) : Option Nat :=
-  let ds := match s with | c :: rest => if c = 0x2b#8 then rest else s | [] => s
-  if ds.isEmpty then none else ds.foldlM (fun acc c => (digitVal c).map (acc * 10 + ·)) 0
+/-- `strconv.Atoi` as far as an array index is concerned: `none` = syntax / range error; a negative
+value never equals an index -/
+def atoiIdx (s : Str) : Option Int :=
+  let (neg, ds) := match s with
+    | c :: rest => if c = 0x2b#8 then (false, rest) else if c = 0x2d#8 then (true, rest) else (false, s)
+    | [] => (false, s)
+  if ds.isEmpty then none else
+  match ds.foldlM (fun (acc : Nat) c => (digitVal c).map (acc * 10 + ·)) 0 with
+  | none => none
+  | some n => if neg then (if n ≤ 2 ^ 63 then some (-(n : Int)) else none) else (if n < 2 ^ 63 then some (n : Int) else none)
 
 inductive QRes | err | vals (l : List J)
   deriving Inhabited
@@ -126,7 +131,7 @@ def query : List Str → J → QRes
         if seg = S "*" then l.foldl (fun acc x => acc.append (query rest x)) (.vals [])
         else match atoiIdx seg with
           | none => .err
-          | some i => match l[i]? with
+          | some i => if i < 0 then .vals [] else match l[i.toNat]? with
               | none => .vals []
               | some x => query rest x
     | _ => .err
